@@ -21,8 +21,9 @@ HEAPS = {0: "FixedSizeHeap(24)", 1: "FixedSizeHeap(8)", 2: "FixedSizeHeap(100)",
 
 def run(ev, vd):
     # implementation-shaped models of the two allocators with non-trivial concurrent / splitting logic (with mutants)
-    for mod in ("PagePool", "PerBackend"):
-        for cfg in [mod + ".cfg"] + ([mod + "_thorough.cfg"] if tier() == "thorough" else []):
+    # (BumpHeap: the per-iteration bump allocator with its malloc fallback list; mutant: linking a fallback block rewinds the offset)
+    for mod in ("PagePool", "PerBackend", "BumpHeap"):
+        for cfg in [mod + ".cfg"] + ([mod + "_thorough.cfg"] if tier() == "thorough" and os.path.exists(os.path.join(SP, mod + "_thorough.cfg")) else []):
             r = tlc(os.path.join(SP, mod + ".tla"), cfg=os.path.join(SP, cfg), workers=NCPU, timeout=3000, heap="16g")
             ev.add_tlc(cfg, r)
             if not r.ok:
